@@ -30,11 +30,15 @@ class PropSpec:
 
 def build_registry():
     reg = Registry()
-    from contracts import encode_c, frame_c
+    from contracts import encode_c, frame_c, decode_c
+    decode_c.register(reg)
     encode_c.register(reg)
     for c in encode_c.lemmas():
         reg.add(c)
     frame_c.register(reg)
+    from contracts import class_c, mapping_c
+    class_c.register(reg)
+    mapping_c.register(reg)
     return reg
 
 
